@@ -287,7 +287,10 @@ theorem fixRelativeAddr_ok (from_ tramp : BitVec 64) (fs least : Int) (tl : Tail
         simp only [List.nil_append] at e; subst e
         exact ⟨hn1, hck, by simpa using hcp⟩
 
-/-- **failure writes nothing** (fix_origin_amd64.go:20): `fixOrigin` yields either the bytes of its single write or an
+/-- **failure writes nothing** (fix_origin_amd64.go:20) — definitional on this model (the model returns either the bytes of
+    the single write or an error, it has no memory): what it pins down is that no failure class of the relocation is
+    swallowed by `fixOrigin`.  That the *function* is left unchanged is NOT a theorem here: `replaceFunc` unpatches an earlier
+    mock before `fixOrigin` runs (finding F29, executed-layer case RemockRefused). `fixOrigin` yields either the bytes of its single write or an
     error, and every failure of the relocation (error or panic class) is a failure of `fixOrigin`. -/
 theorem reloc_fail_is_clean (from_ tramp : BitVec 64) (trampSize : Nat) (prog : List Ins) (e : String)
     (h : fixRelativeAddr Cfg.fixed from_ tramp (progLen prog) ((13 : Nat) : Int) .eof prog = .error e) :
@@ -296,7 +299,10 @@ theorem reloc_fail_is_clean (from_ tramp : BitVec 64) (trampSize : Nat) (prog : 
   unfold fixOrigin
   simp only [Nat.not_le.mpr ht, if_false, h]
 
-/-- **the copy ends with a jump that lands on origin+n** and fits the placeholder: shape of a successful `fixOrigin`. -/
+/-- **the copy ends with a jump that lands on origin+n** and fits the placeholder: shape of a successful `fixOrigin`.
+    The last clause transcribes the code as it is: when the WHOLE function was consumed (`n = progLen`) the bytes written
+    are the raw original ones (`progBytes`), not `fixed` — finding F27, witness `C03F.F27_whole_copy_is_raw`; the property
+    would demand `data = fixed` there. -/
 theorem fixOrigin_ok (from_ tramp : BitVec 64) (trampSize : Nat) (prog : List Ins) (hwf : ∀ i ∈ prog, WF i) (data : Reloc.Bytes)
     (h : fixOrigin Cfg.fixed from_ tramp trampSize 13 prog = .ok data) :
     ∃ fixed n, fixRelativeAddr Cfg.fixed from_ tramp (progLen prog) ((13 : Nat) : Int) .eof prog = .ok (fixed, n) ∧
@@ -465,6 +471,63 @@ theorem no_reentry_partial (n : Nat) (fs : Int) (tl : Tail) (prog : List Ins) (h
   subst hrel
   apply hno
   exact ⟨p, i, hm, hn, hpc, by omega⟩
+
+/-! ## round 5: jump back derived from the distance, condition preservation, inner targets -/
+
+/-- **the jump back is the 5-byte relative form and lands on origin+n** whenever origin and placeholder are less than
+    2^31−2^21 apart and the copy is shorter than 2^20 bytes — derived, not assumed: connects `fixOrigin_ok` with the C15 theorem. -/
+theorem relative_of_near (from_ tramp : BitVec 64) (k n : Nat) (hk : k ≤ 2^20) (hn : n ≤ 2^18)
+    (hd1 : -2^31 + 2^21 ≤ (from_.toNat : Int) - tramp.toNat) (hd2 : (from_.toNat : Int) - tramp.toNat < 2^31 - 2^21) :
+    Gen.Amd64.relative (tramp + BitVec.ofNat 64 k) (from_ + BitVec.ofNat 64 n) = true := by
+  rw [C15.relative_spec]
+  have hF := from_.isLt; have hT := tramp.isLt
+  simp only [BitVec.toInt_eq_toNat_cond, BitVec.toNat_sub, BitVec.toNat_add, BitVec.toNat_ofNat]
+  have e5 : (5 : Nat) % 2^64 = 5 := by decide
+  omega
+
+theorem jump_back_lands_near (from_ tramp : BitVec 64) (k n : Nat) (m : X86.Mach) (hk : k ≤ 2^20) (hn : n ≤ 2^18)
+    (hd1 : -2^31 + 2^21 ≤ (from_.toNat : Int) - tramp.toNat) (hd2 : (from_.toNat : Int) - tramp.toNat < 2^31 - 2^21) :
+    X86.exec (Gen.Amd64.jmpToOriginFunctionValue (tramp + BitVec.ofNat 64 k) (from_ + BitVec.ofNat 64 n))
+      { m with rip := tramp + BitVec.ofNat 64 k } = some { m with rip := from_ + BitVec.ofNat 64 n } :=
+  jump_back_lands from_ tramp k n m (relative_of_near from_ tramp k n hk hn hd1 hd2)
+
+example : Gen.Amd64.relative (0x600000#64 + BitVec.ofNat 64 19) (0x500000#64 + BitVec.ofNat 64 15) = true := by decide
+
+/-- **widening keeps the branch condition**: the near opcode `opExpand` lists for a short branch opcode is the same
+    instruction in its rel32 form (Intel SDM: `7x cb` ↔ `0F 8x cd`, `EB cb` ↔ `E9 cd`). -/
+theorem opExpand_preserves_condition (op : BitVec 8) (near : Reloc.Bytes)
+    (h : Gen.Addr.opExpand (BitVec.setWidth 32 op) = some near) :
+    (op = 0xEB#8 ∧ near = [0xE9#8]) ∨ (op.toNat / 16 = 7 ∧ near = [0x0F#8, op + 0x10#8]) := by
+  have hc := opExpand_cases _ _ h
+  have hinj : ∀ v : BitVec 8, BitVec.setWidth 32 op = BitVec.setWidth 32 v → op = v := by
+    intro v hv
+    apply BitVec.eq_of_toNat_eq
+    have := congrArg BitVec.toNat hv
+    simp only [BitVec.toNat_setWidth] at this
+    have := op.isLt; have := v.isLt
+    omega
+  rcases hc with ⟨hk, rfl⟩ | ⟨hk, rfl⟩ | ⟨hk, rfl⟩ | ⟨hk, rfl⟩
+  · have := hinj 0x74#8 (by rw [hk]; decide); subst this; right; decide
+  · have := hinj 0x76#8 (by rw [hk]; decide); subst this; right; decide
+  · have := hinj 0x7f#8 (by rw [hk]; decide); subst this; right; decide
+  · have := hinj 0xeb#8 (by rw [hk]; decide); subst this; left; decide
+
+example : Gen.Addr.opExpand (BitVec.setWidth 32 0x76#8) = some [0x0F#8, 0x86#8] := by decide
+
+/-- **no copied or remaining instruction targets the inside of the copied prefix**: combined with `reloc_faithful`, the
+    `Image` clauses for inner targets can only fire for a branch to the entry itself (t = 0, which `Image` maps to the start
+    of the copy) or to the next instruction (displacement 0): an inner branch across a widened instruction cannot survive. -/
+theorem reloc_targets_entry_or_outside (from_ tramp : BitVec 64) (fs : Int) (tl : Tail) (prog : List Ins) (hwf : ∀ i ∈ prog, WF i)
+    (out : Reloc.Bytes) (n : Nat) (h : fixRelativeAddr Cfg.fixed from_ tramp fs 13 tl prog = .ok (out, n)) :
+    ∀ p i, (p, i) ∈ located prog 0 → (p : Int) ≤ fs → i.pcrelOff ≠ 0 →
+      sdisp i.field + p + i.len ≤ 0 ∨ (n : Int) ≤ sdisp i.field + p + i.len := by
+  intro p i hm hp hpc
+  obtain ⟨_, hck, _⟩ := fixRelativeAddr_ok from_ tramp fs 13 tl prog hwf out n h
+  obtain ⟨rel, hrel, hnot⟩ := checkJumpBetween_sound n fs tl prog 0 hck p i hm hp hpc
+  rw [decodeRel_wf i (hwf i (located_mem _ _ _ _ hm)) hpc] at hrel
+  simp only [Except.ok.injEq] at hrel
+  subst hrel
+  omega
 
 /-! ## non-vacuity: the hypotheses are met by realistic instructions and the success branch is reachable -/
 
